@@ -29,6 +29,22 @@ RecvStepJ(ev) ==
          ELSE IF drift # {} THEN Flag(l, SetToSeq(drift), [model_status |-> im.st, model_size |-> Len(im.s.line)]) /\ sync' = TRUE
          ELSE sync' = TRUE
 
+\* a run of plain bytes (none of the six context bytes) for each of which status 0 was reported, merged by the driver into one event:
+\* cs the bytes, size / maxsize the stored count after the last byte / the largest during the run
+RecvRunJ(ev) ==
+   LET legacy == name = "legacy"
+       okrun == \A i \in 1..Len(ev.cs) : Plain(cxv, ev.cs[i])
+       mo == MonRunCx(cxv, legacy, m, ev.cs, cap)
+       im == ImplRun(cxv, legacy, s, ev.cs, cap)
+       errs == (IF ev.size > cap - 1 \/ ev.size < 0 \/ ev.maxsize > cap - 1 THEN {"stored_more_than_capacity"} ELSE {})
+               \cup (IF ev.gl # Guard \/ ev.gr # Guard THEN {"guard"} ELSE {})
+       drift == (IF ~im.allzero THEN {"impl_status"} ELSE {}) \cup (IF Len(im.s.line) # ev.size THEN {"impl_size"} ELSE {})
+                \cup (IF ~okrun THEN {"impl_run_not_plain"} ELSE {})
+   IN /\ m' = mo /\ s' = im.s /\ UNCHANGED <<name, cxv, cap>>
+      /\ IF errs # {} THEN Flag(l, SetToSeq(errs), [model_size |-> Len(im.s.line)]) /\ sync' = FALSE
+         ELSE IF drift # {} THEN Flag(l, SetToSeq(drift), [model_size |-> Len(im.s.line)]) /\ sync' = TRUE
+         ELSE sync' = TRUE
+
 EncodeJ(ev) ==
    LET cx == cxv
        want == Encode(cx, ev.p)
@@ -55,6 +71,7 @@ TNext ==
       ELSE IF ~sync THEN UNCHANGED <<sync, name, cxv, cap, m, s>>
       ELSE IF ev.e = "Fault" THEN Flag(l, <<"fault">>, [kind |-> ev.kind, where |-> ev.where]) /\ sync' = FALSE /\ UNCHANGED <<name, cxv, cap, m, s>>
       ELSE IF ev.e = "Recv" THEN RecvStepJ(ev)
+      ELSE IF ev.e = "RecvRun" THEN RecvRunJ(ev)
       ELSE EncodeJ(ev)
 TSpec == TInit /\ [][TNext]_vars
 Accepted == WriteVerdict
